@@ -1000,10 +1000,19 @@ func (c *compiler) evalForExpression(node *ast.ForExpression) (interface{}, erro
 	ret := []interface{}{}
 	switch riter.Kind() {
 	case reflect.Map:
-		keys := riter.MapKeys()
+		// the entries are taken up front; a value is read when its turn comes
+		// and falls back on the one taken up front when the key cannot be
+		// looked up (a NaN key is never found)
+		var keys, vals []reflect.Value
+		for it := riter.MapRange(); it.Next(); {
+			keys, vals = append(keys, it.Key()), append(vals, it.Value())
+		}
 		for i := 0; i < len(keys); i++ {
 			k := keys[i]
 			v := riter.MapIndex(k)
+			if !v.IsValid() {
+				v = vals[i]
+			}
 			c.ctx.Set(node.KeyName, k.Interface())
 			c.ctx.Set(node.ValueName, v.Interface())
 
